@@ -16,6 +16,10 @@ def run(tier):
         ("MCProject", "MCProject_t1.cfg", "project"), ("MCProject", "MCProject_t2.cfg", "project")]
     # inadmissible targets are also rejected when projecting during creation (Create.tla, build step)
     stages.append(("MCCreate", "MCCreate_badproj.cfg", "create"))
+    # projection DURING creation runs one projector over a whole stream: histories of records with equal allele counts and
+    # different called totals, every admissible target of two populations (the coefficients of a record must not depend on
+    # the records before it)
+    stages.append(("MCCreate", "MCCreate_cache.cfg", "create"))
     # two axes at sizes where the joint denominator C(n1,m1) C(n2,m2) leaves the f64 range (through create: Spectrum::project
     # visits every source cell against every target cell and is not usable at these sizes)
     stages.append(("MCCreateLarge", "MCCreateLarge_joint.cfg", "createlarge", {"workers": 2}))
